@@ -91,6 +91,48 @@ def raising_ifs(fn):
     return out
 
 
+def _quantified(test, pol):
+    """`any(C(x) for x in S)` (pol True) / `all(C(x) for x in S)` (pol False, i.e. raising when not all) -> (var, S, C, polarity of C)"""
+    if isinstance(test, ast.UnaryOp) and isinstance(test.op, ast.Not):
+        test, pol = test.operand, not pol
+    if isinstance(test, ast.Call) and isinstance(test.func, ast.Name) and test.func.id in ("any", "all") and len(test.args) == 1 and not test.keywords \
+            and isinstance(test.args[0], (ast.GeneratorExp, ast.ListComp)) and len(test.args[0].generators) == 1 and not test.args[0].generators[0].ifs \
+            and isinstance(test.args[0].generators[0].target, ast.Name):
+        g = test.args[0].generators[0]
+        if test.func.id == "any" and pol:
+            return g.target.id, g.iter, test.args[0].elt, True
+        if test.func.id == "all" and not pol:
+            return g.target.id, g.iter, test.args[0].elt, False
+    return None
+
+
+def raise_sites(fn):
+    """(node, own tests [(expr, polarity)], extra path tests, quantifier) for every place where the function rejects its input:
+       * `if T:` whose branch always raises (own = T);  `if any(C(x) for x in S): raise` is the quantified form of a loop over S;
+       * a bare `raise` that ends a block after earlier statements that leave by return / continue (own = negation of those tests)."""
+    out = []
+    for s, test, pol in raising_ifs(fn):
+        qf = _quantified(test, pol)
+        if qf is not None:
+            var, it, elt, epol = qf
+            out.append((s, [(elt, epol)], [], (var, it)))
+        out.append((s, [(test, pol)], [], None))
+    for r in A.walk_local(fn):
+        if not isinstance(r, ast.Raise) or A.enclosing(r, (ast.ExceptHandler,)) is not None:
+            continue
+        blk = A.block_of(r)
+        if not blk:
+            continue
+        p, f, lst, i = blk
+        if isinstance(p, ast.If) and A.always_raises(lst) and not any(isinstance(x, ast.If) and A.terminates(x.body) and not A.always_raises(x.body) for x in lst[:i]):
+            continue   # an `if T: ... raise` branch, handled above
+        own = [(x.test, False) for x in lst[:i] if isinstance(x, ast.If) and not x.orelse and A.terminates(x.body) and not A.always_raises(x.body)]
+        if not own:
+            continue
+        out.append((r, own, [], None))
+    return out
+
+
 def loop_var_chain(stmt, fn):
     """enclosing for loops of stmt inside fn (innermost first)"""
     return [a for a in A.ancestors(stmt) if isinstance(a, ast.For)]
@@ -112,35 +154,47 @@ def check_guards(ctx):
         if gid == "offset-count":
             from .C08 import count_guard
             matched = count_guard(fn)
-        for ifs, test, pol in ([] if matched is not None else raising_ifs(fn)):
+        for ifs, own_tests, extra, quant in ([] if matched is not None else raise_sites(fn)):
             loops = loop_var_chain(ifs, fn)
             rename = {}
+            q_iter = None
+            q_loop = None
             if iter_src is not None:
-                if not loops:
+                if quant is not None:
+                    rename[quant[0]] = "IT"
+                    q_iter = quant[1]
+                elif loops and isinstance(loops[0].target, ast.Name):
+                    q_loop = loops[0]
+                    rename[q_loop.target.id] = "IT"
+                    q_iter = q_loop.iter
+                else:
                     continue
-                lp = loops[0]
-                if not isinstance(lp.target, ast.Name):
-                    continue
-                rename[lp.target.id] = "IT"
+            elif quant is not None:
+                continue
             # full firing condition of this raise = path condition AND own test
             spec = A.nnf_of_src(cond_src)
             hit = False
             for inl in (True, False):
                 f = (lambda t: _inline(flow, t, ifs, rename)) if inl else (lambda t: t)
-                own = _rename_nnf(A.nnf(f(test), not pol, None), rename)
-                pcs = [_rename_nnf(A.nnf(f(t), not p, None), rename) for t, p in A.guards_of(ifs)]
-                guard_nnf = own if not pcs else ("and", frozenset([own] + pcs))
+                own = [_rename_nnf(A.nnf(f(t), not p, None), rename) for t, p in own_tests]
+                # the `else` of an earlier branch that always leaves (`if bad1: raise ... elif bad2: raise`) is a sibling guard in disguise: it is not part
+                # of the firing condition (an input rejected there is rejected)
+                pcs = [_rename_nnf(A.nnf(f(t), not p, None), rename) for t, p in list(A.guards_of(ifs)) + extra
+                       if not (not p and isinstance(A.parent(t), ast.If) and A.parent(t).test is t and A.always_raises(A.parent(t).body))]
+                guard_nnf = A.conj(own + pcs)
                 if A.nnf_implies(spec, guard_nnf):
                     hit = True
                     break
             if hit:
                 if iter_src is not None:
-                    lp = loops[0]
-                    it = flow.resolve(lp.iter, at=lp)
+                    at = q_loop if q_loop is not None else ifs
+                    it = flow.resolve(q_iter, at=at)
                     want = parse(iter_src)
-                    if canon(A.strip_casts(it)) != canon(want) and canon(lp.iter) != canon(want):
-                        best_loop_problem = (lp, "the check runs over `%s`, not over the full set `%s`" % (A.unparse(lp.iter)[:60], iter_src))
+                    if canon(A.strip_casts(it)) != canon(want) and canon(q_iter) != canon(want) and canon(A.inline_temporaries(q_iter, at, fn)) != canon(want):
+                        best_loop_problem = (at, "the check runs over `%s`, not over the full set `%s`" % (A.unparse(q_iter)[:60], iter_src))
                         continue
+                if q_loop is not None:
+                    lp = q_loop
                     # directly in the loop body, nothing before it may skip
                     blk = A.block_of(ifs)
                     top = ifs
@@ -153,9 +207,6 @@ def check_guards(ctx):
                     skippers = [s for s in lp.body[:idx] for x in A.walk_local(s) if isinstance(x, (ast.Continue, ast.Break))]
                     if skippers:
                         best_loop_problem = (skippers[0], "an earlier `continue`/`break` in the loop body lets some names skip the check")
-                        continue
-                    if A.guards_of(ifs, stop=lp) and not _guards_ok(A.guards_of(ifs, stop=lp), spec, flow, ifs, rename):
-                        best_loop_problem = (ifs, "the check is nested under a condition that exempts some names")
                         continue
                 matched = ifs
                 break
